@@ -90,8 +90,19 @@ Reparent(st, ob, np, nn) ==
   LET sub   == Sub(st, ob)
       op    == st.objs[ob].par
       on    == st.objs[ob].name.b
-      objs1 == [st.objs EXCEPT ![ob].par = np, ![ob].name = P(nn)]
-      a1    == Unreg(st.all, st.objs, sub)
+      objs0 == [st.objs EXCEPT ![ob].par = np, ![ob].name = P(nn)]
+      a0    == Unreg(st.all, st.objs, sub)
+      key   == FullNameIn(ob, objs0)
+      \* the name is in use in the new parent: the resident is superseded like by a redefinition (handleDuplicate)
+      res   == IF key \in DOMAIN a0 /\ a0[key] # ob THEN a0[key] ELSE NoObj
+      WithDup(i) == [key EXCEPT ![Len(key)] = DupName(nn, i)]
+      di    == CHOOSE i \in 0..Len(st.objs) : WithDup(i) \notin DOMAIN a0 /\ \A j \in 0..(i-1) : WithDup(j) \in DOMAIN a0
+      rsub  == IF res = NoObj THEN {} ELSE SubIn(res, a0, objs0)
+      objs1 == IF res = NoObj THEN objs0 ELSE [objs0 EXCEPT ![res].name = DupName(nn, di)]
+      a1    == IF res = NoObj THEN a0
+               ELSE LET ar == Unreg(a0, objs0, rsub)
+                        rk == {FullNameIn(x, objs1) : x \in rsub}
+                    IN [k \in DOMAIN ar \cup rk |-> IF k \in rk THEN CHOOSE x \in rsub : FullNameIn(x, objs1) = k ELSE ar[k]]
       newk  == {FullNameIn(x, objs1) : x \in sub}
       all1  == [k \in DOMAIN a1 \cup newk |-> IF k \in newk THEN CHOOSE x \in sub : FullNameIn(x, objs1) = k ELSE a1[k]]
   IN IF \/ op = NoObj \/ Cls(st, op) \notin Scopes              \* assert isinstance(old_parent, CanContainImports..)
